@@ -122,6 +122,63 @@ def _same(out, what, a, b, tag, table_a=None):
     return True
 
 
+class FreshTwin:
+    """A child forked at the very beginning of the case, i.e. with the process-global state of a fresh process (cases
+    themselves run in a forked child of a runner that never executes repository code).  It waits for a job, runs
+    blind(other image) and then blind(image), and sends back the catalogue key and the tables."""
+
+    def __init__(self):
+        import pickle
+        self.pickle = pickle
+        jr, jw = os.pipe()
+        rr, rw = os.pipe()
+        self.pid = os.fork()
+        if self.pid == 0:
+            try:
+                os.close(jw)
+                os.close(rr)
+                with os.fdopen(jr, "rb") as f:
+                    data = f.read()
+                if not data:
+                    os._exit(0)
+                gpath, gspec, go, path, spec, o = pickle.loads(data)
+                try:
+                    _blind(gpath, gspec, go)
+                    _, B = _blind(path, spec, o)
+                    payload = pickle.dumps(("ok", fm.catalogue_key(B), fm.table_text(B, "c") if B else ""))
+                except BaseException as e:      # noqa: BLE001
+                    payload = pickle.dumps(("exc", "%s: %s (at %s)" % (type(e).__name__, str(e)[:160], _where(e)), None))
+                with os.fdopen(rw, "wb") as f:
+                    f.write(payload)
+            finally:
+                os._exit(0)
+        os.close(jr)
+        os.close(rw)
+        self.jw, self.rr = jw, rr
+
+    def run(self, *job):
+        with os.fdopen(self.jw, "wb") as f:
+            f.write(self.pickle.dumps(job))
+        self.jw = None
+        with os.fdopen(self.rr, "rb") as f:
+            data = f.read()
+        self.rr = None
+        os.waitpid(self.pid, 0)
+        self.pid = None
+        if not data:
+            raise RuntimeError("fresh twin died without reporting")
+        return self.pickle.loads(data)
+
+    def discard(self):
+        if self.jw is not None:
+            os.close(self.jw)
+        if self.rr is not None:
+            os.close(self.rr)
+        if self.pid is not None:
+            os.waitpid(self.pid, 0)
+            self.pid = None
+
+
 def case(ch):
     out = Outcome()
     models = fm._state["models"] if "models" in fm._state else None
@@ -143,6 +200,17 @@ def case(ch):
         o["nopositive"] = True
     if pol == 4:
         o["nonegative"] = True
+    variant = ("fresh-finder", "same-finder", "after-other-image", "other-image-first-in-fresh-process")[
+        ch.weighted("rerun_variant", [2, 2, 3, 3])]
+    twin = FreshTwin() if variant == "other-image-first-in-fresh-process" else None
+    try:
+        return _case_body(ch, out, models, spec, path, o, variant, twin)
+    finally:
+        if twin is not None:
+            twin.discard()
+
+
+def _case_body(ch, out, models, spec, path, o, variant, twin):
     history = ["blind"]
     out.sample = {"image": {k: spec[k] for k in ("layout", "rows", "cols", "crval", "pix_arcsec", "beam_pix", "noise")},
                   "nsources_injected": len(spec["sources"]), "options": dict(o), "history": history}
@@ -174,23 +242,49 @@ def case(ch):
         out.stats["probe:multi_component_island"] += 1
 
     # ---- re-run identity (history variants)
-    variant = ("fresh-finder", "same-finder", "after-galactic-image")[ch.weighted("rerun_variant", [3, 2, 3])]
     history.append("rerun:" + variant)
-    if variant == "after-galactic-image":
-        gspec = fm.gen_image(ch, galactic=True, small=True)
-        gpath = fm.write_image(gspec, os.path.join(fm.tmpdir(), "gal.fits"))
+    gpath = gspec = go = None
+    if variant in ("after-other-image", "other-image-first-in-fresh-process"):
+        kind = ("galactic", "same-pixels-other-beam", "other")[ch.draw("prefix_kind", 3)]
+        history[-1] += "(%s)" % kind
+        if kind == "same-pixels-other-beam":
+            gspec = dict(spec, beam_pix=spec["beam_pix"] + (1.0, 0.5, -0.5)[ch.draw("other_beam", 3)])
+        else:
+            gspec = fm.gen_image(ch, galactic=(kind == "galactic"), small=True)
+        gpath = fm.write_image(gspec, os.path.join(fm.tmpdir(), "other.fits"))
         go = dict(o, islands=False)
-        if _try(out, "blind find on an unrelated galactic image", _blind, gpath, gspec, go) is None:
+        out.stats["probe:prefix_" + kind.replace("-", "_")] += 1
+    if variant == "other-image-first-in-fresh-process":
+        # a fresh process (forked from this one before anything touched the finder's global state would be ideal;
+        # this process has only run the operation itself) processes the other image FIRST, then the image
+        tag, keyB, tableB = twin.run(gpath, gspec, go, path, spec, o)
+        out.stats["runs"] += 2
+        if tag == "exc":
+            out.violation("aborted", "blind find in a fresh process after another image raised %s" % keyB, sig="fresh-twin", op="blind")
             return out
+        out.stats["oracle:rerun_identical"] += 1
+        if fm.catalogue_key(A) != keyB:
+            ka = fm.catalogue_key(A)
+            n = sum(1 for x, y in zip(ka, keyB) if x != y) + abs(len(ka) - len(keyB))
+            out.violation("rerun-differs", "blind find in a fresh process that processed another image first (%s): %d vs %d "
+                          "rows, %d differ" % (history[-1], len(ka), len(keyB), n), sig=variant, op="blind")
+            return out
+        if tableA != tableB:
+            out.violation("rerun-table-differs", "blind find in a fresh process that processed another image first (%s): "
+                          "the tables written by save_catalog differ" % history[-1], sig=variant, op="blind")
+            return out
+    else:
+        if variant == "after-other-image":
+            if _try(out, "blind find on an unrelated image", _blind, gpath, gspec, go) is None:
+                return out
+            out.stats["runs"] += 1
+        r = _try(out, "repeated blind find (%s)" % variant, _blind, path, spec, o, finderA if variant == "same-finder" else None)
         out.stats["runs"] += 1
-        out.stats["probe:galactic_prefix"] += 1
-    r = _try(out, "repeated blind find (%s)" % variant, _blind, path, spec, o, finderA if variant == "same-finder" else None)
-    out.stats["runs"] += 1
-    if r is None:
-        return out
-    _, A2 = r
-    if not _same(out, "blind find repeated (%s)" % variant, A, A2, variant, table_a=tableA):
-        return out
+        if r is None:
+            return out
+        _, A2 = r
+        if not _same(out, "blind find repeated (%s)" % history[-1], A, A2, variant, table_a=tableA):
+            return out
 
     # ---- priorized fit of the blind catalogue
     P = None
